@@ -503,6 +503,15 @@ func (b *Block) SetVersion(version HeaderVersion) common.Hash {
 	return v
 }
 
+// SetUncleVersions stamps every uncle with the version of its own height
+// (an uncle from before a version fork is not hashed like the block that
+// includes it).
+func (b *Block) SetUncleVersions(versionOf func(*big.Int) HeaderVersion) {
+	for i := range b.uncles {
+		b.uncles[i].Version = versionOf(b.uncles[i].Number)
+	}
+}
+
 // SetVersionConfig sets the header version based on a chain config
 // This is the ideal way of using remotely fetched blocks. (ex: via rpc)
 func (b *Block) SetVersionConfig(cfg *params.ChainConfig) {
